@@ -12,7 +12,7 @@ BUDGET = {"quick": 50, "thorough": 900}
 QUICK_CASES = 2400  # generator items in the quick tier (fixed amount of work; BUDGET is then only a safety cap)
 FLOOR = {"quick": 800, "thorough": 1500}
 TIMEOUT = 90
-REQUIRED_OBS = ["runs_observed", "msgs_sent", "pairs_matching", "pairs_not_matching", "emitted_checked", "mqtt_runs", "webhook_runs"]
+REQUIRED_OBS = ["runs_observed", "msgs_sent", "pairs_matching", "pairs_not_matching", "emitted_checked", "mqtt_runs", "webhook_runs", "state_hold_cases"]
 RULE = (
     "random scripts (1-4 functions with 1-3 @event_trigger each over shared/distinct event types, optional structured filter "
     "expressions over payload keys, kwargs=; optional @mqtt_trigger with +/# wildcards and payload_obj filters; optional "
@@ -144,7 +144,16 @@ def generate(tier, seed):
                 gap = rng.choice([0, 0, 1, 3, "settle", "t1"])
             m["gap"] = gap
             msgs.append(m)
-        base = {"funcs": funcs, "msgs": msgs, "tick": rng.choice([1e-6, 5e-6, 5e-5, 5e-4]), "mqtt": use_mqtt, "hook": use_hook}
+        hold = None
+        if rng.random() < 0.3 and len(msgs) > 6:
+            # one function also carries @state_trigger(..., state_hold=H): messages that arrive while the hold is pending are still
+            # delivered exactly once, and the held state trigger runs exactly once, when the hold expires
+            fi = rng.randrange(len(funcs))
+            funcs[fi]["emit"] = False
+            funcs[fi]["sleep"] = False
+            hold = {"fn": funcs[fi]["name"], "after": rng.randrange(1, len(msgs) - 3), "H": 30.5}
+            funcs[fi]["hold"] = hold["H"]
+        base = {"funcs": funcs, "msgs": msgs, "tick": rng.choice([1e-6, 5e-6, 5e-5, 5e-4]), "mqtt": use_mqtt, "hook": use_hook, "hold": hold}
         for legacy in (False, True):
             c = dict(base)
             c["legacy"] = legacy
@@ -166,11 +175,15 @@ def render_script(case):
             else:
                 args = [repr(d["hook"])] + ([repr(render_filter(d["filt"], "payload"))] if d["filt"] else [])
                 lines.append(f"@webhook_trigger({', '.join(args)}, kwargs={d['kw']!r})")
+        if f.get("hold"):
+            lines.append(f"@state_trigger(\"pyscript.c8h == '1'\", state_hold={f['hold']}, kwargs={{'dec': 'hold'}})")
         lines.append(f"def {f['name']}(**kw):")
         lines.append(f"    vf.rec('run', fn={f['name']!r}, kw=kw)")
         lines.append("    uid = vf.uid(kw)")
         if f["emit"]:
             lines.append(f"    event.fire('out', src=uid, fn={f['name']!r}, payload=[uid, 'x'])")
+            # parameters that merely look special: a 'context' that is not a Context, None / falsy values, nested data
+            lines.append(f"    event.fire('out3', src=uid, fn={f['name']!r}, context='just-data', none=None, zero=0, nested={{'k': [1, {{'z': None}}]}})")
             lines.append(f"    pyscript.out_{f['name']} = str(uid)")
             lines.append(f"    service.call('vf', 'sink', src=uid, fn={f['name']!r})")
         if f["sleep"]:
@@ -267,6 +280,7 @@ def run_case(case):
     script = render_script(case)
     sink = []
     sent_at = {}
+    hold_info = {}
 
     async def main(w):
         from homeassistant.core import Context
@@ -278,7 +292,11 @@ def run_case(case):
 
         w.hass.services.async_register("vf", "sink", _sink)
         await w.settle()
-        for m in case["msgs"]:
+        hold = case.get("hold")
+        for mi, m in enumerate(case["msgs"]):
+            if hold and mi == hold["after"]:
+                w.hass.states.async_set("pyscript.c8h", "1", context=Context(id="chold"))
+                hold_info["t"] = w.clock.off
             w._rec("issue", uid=m["uid"])
             sent_at[m["uid"]] = w.clock.off
             if m["kind"] == "event":
@@ -309,6 +327,11 @@ def run_case(case):
                     await asyncio.sleep(0)
         await w.settle()
         await w.advance(12.0)
+        if hold:
+            await w.advance(hold["H"] + 5)
+
+    def pre(w):
+        w.hass.states.async_set("pyscript.c8h", "0")
 
     extra = {
         "vf.uid": lambda kw: _uid_of(sanitize(kw)),
@@ -321,10 +344,18 @@ def run_case(case):
         mqtt=case["mqtt"],
         webhook=case["hook"],
         extra_functions=extra,
+        pre_setup=pre,
         keep=True,
     )
     viol = []
     runs = [r for r in w.rec if r["tag"] == "run"]
+    hold_runs = [r for r in runs if r["kw"].get("dec") == "hold"]
+    runs = [r for r in runs if r["kw"].get("dec") != "hold"]
+    if case.get("hold"):
+        H = case["hold"]["H"]
+        ok = len(hold_runs) == 1 and hold_runs[0]["fn"] == case["hold"]["fn"] and hold_runs[0]["kw"].get("trigger_type") == "state" and (hold_runs[0]["kw"].get("value") or {}).get("s") == "1" and abs(hold_runs[0]["t"] - (hold_info["t"] + H)) <= 0.02
+        if not ok:
+            viol.append({"mech": "held_state_trigger_disturbed_by_messages", "msg": f"state_hold={H} started at {hold_info.get('t')}: runs {[(r['t'], r['fn'], r['kw'].get('trigger_type'), r['kw'].get('value')) for r in hold_runs]}"})
     by_dec = {}
     for r in runs:
         by_dec.setdefault(r["kw"].get("dec"), []).append(r)
@@ -437,6 +468,20 @@ def run_case(case):
                 }
             )
             break
+    outs3 = [b for b in w.bus if b["type"] == "out3"]
+    if len(outs3) != n_emit_runs and not viol:
+        viol.append({"mech": "event_fire_count", "msg": f"{n_emit_runs} runs fired 'out3' but {len(outs3)} events seen"})
+    for b in outs3:
+        d = b["data"]
+        emitted_checked += 1
+        exp = {"src": d.get("src"), "fn": d.get("fn"), "context": "just-data", "none": None, "zero": 0, "nested": {"k": [1, {"z": None}]}}
+        if d != exp:
+            viol.append({"mech": "event_fire_payload", "msg": f"out3 event data {d}, given parameters {exp}"})
+            break
+        want = run_ctx.get((d.get("fn"), d.get("src")), "?")
+        if want == "?" or b["parent"] != want:
+            viol.append({"mech": "context_parent_event", "msg": f"out3 event of {d.get('fn')} uid {d.get('src')}: parent {b['parent']} expected {want}"})
+            break
     outs2 = [b for b in w.bus if b["type"] == "out2"]
     n_emit_sleepy = sum(1 for r in runs if any(f["name"] == r["fn"] and f["sleep"] and f["emit"] for f in case["funcs"]))
     if len(outs2) != n_emit_sleepy:
@@ -466,6 +511,7 @@ def run_case(case):
         "violations": viol,
         "nontrivial": len(case["msgs"]) >= 10 and has_burst and overlap and pm > 0,
         "obs": {
+            "state_hold_cases": int(bool(case.get("hold"))),
             "runs_observed": len(runs),
             "msgs_sent": len(case["msgs"]),
             "pairs_matching": pm,
